@@ -5,6 +5,7 @@ pub mod c12;
 pub mod c14;
 pub mod c20;
 pub mod c21;
+pub mod c23;
 pub mod c24;
 pub mod c27;
 pub mod c28;
@@ -37,6 +38,7 @@ pub fn dispatch(id: &str, args: &[String]) -> ! {
         "C21" => c21::run(args),
         "C22" => dirchecks::run("C22", args),
         "C26" => dirchecks::run("C26", args),
+        "C23" => c23::run(args),
         "C24" => c24::run(args),
         "C27" => c27::run(args),
         "C28" => c28::run(args),
